@@ -32,7 +32,7 @@ RULE = ('case = (grid sizes in [5..9]^4 with nz >= 7, amplified constants [small
         'grids, layout, seeds) tuples')
 ASSUMPTIONS = ['integer dt; grid sizes above the stencil widths; every rank owns >= 1 point']
 
-STAGES = ['init', 'flux', 'vpar', 'pargrad', 'keep', 'pol', 'rho', 'phi', 'f_end', 'phi_end']
+STAGES = ['init', 'flux', 'vpar', 'pargrad', 'keep', 'pol', 'pol_same', 'rho', 'phi', 'f_end', 'phi_end']
 
 
 def gen(rng, tier, idx):
@@ -55,7 +55,7 @@ def gen(rng, tier, idx):
     return dict(P=max(g[0] * g[1] for g in grids), ckw=ckw, grids=grids,
                 start=rng.choice(['flux_surface', 'v_parallel', 'poloidal']),
                 fseed=rng.randrange(1 << 30), phiamp=rng.choice([0.3, 1.0, 3.0]),
-                strang=True, sched=sched)
+                strang=True, opts=phys.gen_operator_options(rng, npts) if rng.random() < 0.4 else {}, sched=sched)
 
 
 def make_rank_fn(case, g, serial_oracle):
@@ -87,7 +87,7 @@ def make_rank_fn(case, g, serial_oracle):
         pert = phys.smooth_noise(npts, case['fseed'], amp=0.2)
         f.getAllData()[:] *= (1.0 + cm.local(pert, lay))
         phys.check_forced(f, g)
-        pipe = phys.Pipeline(comm, f, constants)
+        pipe = phys.Pipeline(comm, f, constants, opts=case.get('opts'))
         pipe.parGradVals[:] = np.nan
         phi = pipe.phi
         PHI = case['phiamp'] * phys.smooth_noise(npts[:3], case['fseed'] + 17, amp=1.0)
@@ -155,6 +155,19 @@ def make_rank_fn(case, g, serial_oracle):
                     pipe.polAdv.step(ref[i, j], half, s2, v)
             _same(f.getAllData(), ref, 'poloidal gridStep vs per-plane step with the potential of the same z and the same v')
 
+        # the variant that reuses the potential splines of the previous poloidal step (same potential, next sub-step)
+        if serial_oracle:
+            ref = np.array(f.getAllData(), copy=True)
+        pipe.polAdv.gridStep_SplinesUnchanged(f, half)
+        out['pol_same'] = phys.block(f)
+        if serial_oracle:
+            for j in range(ref.shape[1]):              # z
+                s2 = Spline2D(sp[0], sp[1])
+                interp.compute_interpolant(phi_p[j], s2)
+                for i, v in enumerate(eta[3]):
+                    pipe.polAdv.step(ref[i, j], half, s2, v)
+            _same(f.getAllData(), ref, 'poloidal gridStep_SplinesUnchanged vs per-plane step with the potential of the same z')
+
         # density and quasi-neutrality -----------------------------------------------
         f.setLayout('v_parallel')
         pipe.density.getPerturbedRho(f, pipe.rho)
@@ -188,7 +201,7 @@ def run(case, tape=None):
     M = Multi(ID, tape)
     npts = case['ckw']['npts']
     fields = []
-    shapes = dict(init=npts, flux=npts, vpar=npts, keep=npts, pol=npts, f_end=npts,
+    shapes = dict(init=npts, flux=npts, vpar=npts, keep=npts, pol=npts, pol_same=npts, f_end=npts,
                   pargrad=npts[:3], rho=npts[:3], phi=npts[:3], phi_end=npts[:3])
     for gi, g in enumerate(case['grids']):
         P = g[0] * g[1]
